@@ -9,12 +9,19 @@
    space contains fall-through, shadowing, skipped second host and query-sensitive cases.
 2. spec -> code: TLC prints, for a family of apps (<= 2 host sub-apps x <= 3 routes + default, catalogue patterns),
    the expected handler of every request (5 Host values x 8 paths x queries x {HTTP, WebSocket}); the harness
-   builds each app as a REAL humphrey App on a loopback port, sends every request over raw TCP under several
-   renderings (method, version, other headers, header-name case, keep-alive / fresh connection, OPTIONS) and
-   compares the identity of the handler that answered.
+   builds each app as a REAL humphrey App on a loopback port (all builder methods: with_host - also twice with
+   the same pattern -, with_route / with_stateless_route / with_path_aware_route, with_websocket_route,
+   with_default_subapp after catch-alls that must vanish, with_websocket_handler), sends every request over raw TCP
+   under several renderings (method, version, other headers, the header NAMES Host / Upgrade / Connection /
+   Content-Length in four spellings, keep-alive connection shared by all Host values / fresh connection, OPTIONS,
+   WebSocket upgrade on a fresh connection or on the connection that carried ordinary requests before) and compares
+   the identity of the handler that answered. The catalogue holds the degenerate forms: empty Host value (present,
+   not absent), Host in another case (a different value: patterns match literally), Host with port, the empty
+   path (a parser answering 400 to an empty request target is accepted as well), `/`, the patterns `` and `*`.
    Both directions run against the threaded runtime (humphrey/src/app.rs) and the tokio twin (tokio/app.rs).
-3. code -> spec: random real apps at the property's full width (0..4 hosts x 0..6 routes of each kind) with
-   random registration interleavings; the log of registration calls + observed handlers is replayed by TLC
+3. code -> spec: random real apps at the property's full width (0..4 hosts x 0..6 routes of each kind; every
+   twelfth app far beyond it: 8..16 hosts, 20..45 routes per list, mostly copies) with random registration
+   interleavings, upper case and non-ASCII symbols in paths, patterns and Host values; the log of registration calls + observed handlers is replayed by TLC
    (Trace_Routing.tla) with Routing's own registration operators and dispatcher actions.
 4. self-test of the binding: one flipped expected value must be reported by the harness, one flipped logged
    handler must be rejected by TLC (otherwise exit 2)."""
@@ -28,7 +35,7 @@ from vlib import Ctx, run_tlc, build_harness, run_bin, parse_jsonl, SPEC
 
 D = os.path.join(SPEC, "routing")
 DEVS = ["LastRoute", "LastHost", "NextHostOnMiss", "NoDefaultAfterHostMatch", "MatchWithQuery", "HostEquality",
-        "HostIgnoresPort", "WsUsesHttpRoutes", "NoSavedTextPos"]
+        "HostIgnoresPort", "WsUsesHttpRoutes", "HostCaseFolded", "PathCaseFolded", "EmptyHostIsAbsent", "NoSavedTextPos"]
 WITNESSES = ["NoFallThroughHit", "NoShadowing", "NoSecondHostSkipped", "NoQueryMatters"]
 ACTIONS = ["HostAbsent", "HostStep", "RouteStep", "DefaultStep"]
 BATCH = 400          # apps per harness process (every App::run leaves its pool's recovery thread behind)
@@ -43,7 +50,8 @@ def _match_text(path):
 def _replay_batches(ctx, binpath, header, apps, variants, workers):
     """Runs the harness over `apps` (decoded TLC lines) in batches; returns the merged summary."""
     tot = {"apps": 0, "requests": 0, "evaluations": 0, "mismatches": 0, "tool_errors": 0, "unstopped": 0,
-           "transport_retries": 0, "first": [], "samples": []}
+           "transport_retries": 0, "start_failures": 0, "refused_degenerate": 0, "ws_upgrades_on_kept_connection": 0,
+           "hangs": 0, "aborted_after_hangs": False, "first": [], "samples": []}
     for i in range(0, len(apps), BATCH):
         chunk = apps[i:i + BATCH]
         data = json.dumps(header) + "\n" + "\n".join(json.dumps(a) for a in chunk) + "\n"
@@ -52,10 +60,16 @@ def _replay_batches(ctx, binpath, header, apps, variants, workers):
         if p.returncode != 0 or not res:
             raise vlib.ToolError("routing replay failed rc=%s: %s" % (p.returncode, p.stderr[-2000:]))
         s = res[0]
-        if s["apps"] + s["tool_errors"] < len(chunk):
+        if s["apps"] + s["tool_errors"] < len(chunk) and not s["aborted_after_hangs"]:
             raise vlib.ToolError("harness ran %d of %d apps" % (s["apps"], len(chunk)))
-        for k in ("apps", "requests", "evaluations", "mismatches", "tool_errors", "unstopped", "transport_retries"):
+        for k in ("apps", "requests", "evaluations", "mismatches", "tool_errors", "unstopped", "transport_retries",
+                  "start_failures", "refused_degenerate", "ws_upgrades_on_kept_connection", "hangs"):
             tot[k] += s[k]
+        if s["aborted_after_hangs"]:
+            # requests that never complete are a finding of their own (reported by the caller): stop sending more
+            tot["aborted_after_hangs"] = True
+            tot["first"] += s["first"]
+            break
         # app_index is local to the batch
         tot["first"] += s["first"]
         tot["samples"] += s["samples"]
@@ -182,14 +196,27 @@ def run(tier, replay):
                "default_after_fall_through": cls[3], "host_subapp": cls[4], "shadowed_by_order": shadow,
                "query_would_change_choice": qm, "later_host_also_matches": skip}
     for label, binpath in (("threaded", routing), ("tokio", routing_tokio)):
-        s = _replay_batches(ctx, binpath, header, apps, "all" if thorough else "one", 6)
+        # thorough: every rendering on every third app, one rendering (rotating) on the others
+        s = _replay_batches(ctx, binpath, header, apps, "mixed" if thorough else "one", 6)
         ctx.cov["evaluations"] += s["evaluations"]
         ctx.cov["traces_validated_against_impl"] += s["requests"]
         for x in s["samples"][:2]:
             ctx.sample(dict(x, runtime=label))
         ctx.add_part("vectors %s, %s runtime" % (cfg, label), apps=s["apps"], requests_per_app=nreq, vectors=s["requests"],
                      real_requests=s["evaluations"], mismatches=s["mismatches"], tool_errors=s["tool_errors"],
-                     unstopped_apps=s["unstopped"], transport_retries=s["transport_retries"], classes=classes)
+                     unstopped_apps=s["unstopped"], transport_retries=s["transport_retries"],
+                     websocket_upgrades_on_a_kept_alive_connection=s["ws_upgrades_on_kept_connection"],
+                     empty_target_refused_with_400=s["refused_degenerate"], classes=classes)
+        if s["aborted_after_hangs"]:
+            ctx.violation("%s runtime: %d request(s) were never answered (8 s, retried once); the replay was cut short; first mismatches: %s" % (
+                label, s["hangs"], json.dumps(s["first"][:2])[:600]),
+                {"kind": "routing-vectors", "runtime": label, "cfg": cfg, "reqs": header["reqs"], "first": s["first"][:10]})
+            continue
+        if s["start_failures"] and s["apps"] == 0:
+            # not one app came up although loopback ports could be probed: App::run itself does not serve
+            ctx.violation("%s runtime: none of %d apps accepted a connection after App::run (8 ports tried each)" % (label, s["start_failures"]),
+                          {"kind": "routing-start", "runtime": label, "app": apps[0]["app"]})
+            continue
         if s["tool_errors"] > max(3, len(apps) // 50):
             raise vlib.ToolError("too many apps could not be started / queried (%s): %d" % (label, s["tool_errors"]))
         if s["mismatches"]:
@@ -209,10 +236,19 @@ def run(tier, replay):
         if p.returncode != 0:
             raise vlib.ToolError("routing random (%s) failed: %s" % (label, p.stderr[-1000:]))
         summ = [x for x in parse_jsonl(p.stderr) if x.get("summary")]
-        if not summ or summ[0]["tool_errors"] > napps // 20 + 3:
+        if summ and summ[0].get("aborted_after_hangs"):
+            # the log still holds the unanswered requests (got.sub = -1): TLC rejects them below -> exit 1
+            pass
+        elif summ and summ[0].get("start_failures", 0) >= napps:
+            ctx.violation("%s runtime: none of %d random apps accepted a connection after App::run" % (label, napps),
+                          {"kind": "routing-start", "runtime": label})
+            continue
+        elif not summ or summ[0]["tool_errors"] > napps // 20 + 3:
             raise vlib.ToolError("routing random (%s): %s" % (label, summ or p.stderr[-500:]))
         lines += p.stdout.splitlines()
         bounds.append((len(lines), label))
+    if not lines:
+        return ctx.finish()
     napps = sum(x[2] for x in plan)
     tr = os.path.join(work, "random.ndjson")
     with open(tr, "w") as f:
@@ -276,7 +312,7 @@ def run(tier, replay):
             os.remove(pth)
 
     ctx.cov["rule"] = ("vectors: every (app, request) pair of the generated family, each sent as real HTTP / WebSocket-upgrade "
-                       "requests under 1 (quick) or all (thorough) renderings; non-trivial = pairs where a host sub-app matched "
+                       "requests under 1 rendering per vector, rotating (quick) or all renderings on every third app (thorough); non-trivial = pairs where a host sub-app matched "
                        "(hit, fall-through to default, or miss), or registration order decided (a later route matches too), or the "
                        "query would change the choice; random part: requests whose class (computed by TLC) is host-sub-app hit, "
                        "fall-through or miss-after-host-match")
